@@ -146,6 +146,22 @@ pub fn build(family: &str, tier: Tier) -> Vec<Cfg> {
                     }
                 }
             }
+            // a tiny buffer on one connection only: the PUBLISH / PUBREL of that connection is cut at every byte while the other connections stay short
+            for caps in [vec![4096usize, 5, 4096], vec![5, 4096, 4096], vec![4096, 4096, 5], vec![4096, 4, 4096]] {
+                for (policy, v311) in [(OfflineQueuePolicy::PreserveAll, false), (OfflineQueuePolicy::PreserveNothing, false), (OfflineQueuePolicy::PreserveAll, true)] {
+                    if !thorough && (policy != OfflineQueuePolicy::PreserveAll || v311) && caps != vec![4096, 5, 4096] { continue; }
+                    let mut c = Cfg::base("qos-delivery", &format!("caps{:?}-{:?}-v{}", caps, policy, if v311 { 311 } else { 5 }));
+                    c.caps = caps.clone(); c.offline = policy; c.mqtt311 = v311;
+                    c.submits = vec![spec("pub2", publish("t", 2))];
+                    c.max_submits = 1;
+                    c.max_conns = if thorough { 4 } else { 3 };
+                    c.budget = if thorough { 4 } else { 3 };
+                    c.max_depth = 90;
+                    c.allow.close = true;
+                    c.session_answers = vec![true, false];
+                    out.push(c);
+                }
+            }
         }
         "inbound" => {
             for v311 in [false, true] {
